@@ -21,7 +21,7 @@ ASSUMPTIONS = ["CPython float/Fraction arithmetic", "nvmon.ref exact reference m
 FLOORS = {'quick': {'single': 1500, 'list': 300, 'ders0': 300, 'grid_point': 1000, 'grid_shape': 150, 'meval': 2000,
                     'corner': 300},
           'thorough': {'single': 15000, 'grid_point': 10000, 'meval': 20000}}
-MANDATORY_TAGS = ['ss:delta>2/3', 'pdim3', 'rational', 'u:knot_full', 'u:knot', 'u:start', 'u:end', 'kv:unclamped', 'kv:range',
+MANDATORY_TAGS = ['ss:delta>2/3', 'container-grid', 'pdim3', 'rational', 'u:knot_full', 'u:knot', 'u:start', 'u:end', 'kv:unclamped', 'kv:range',
                   'ss:distinct', 'ss:one-direction', 'route:list', 'span:binary', 'dim4']
 TECHNIQUE = ("runtime monitoring: exact-arithmetic post-condition on every evaluators.*.evaluate() call (M-eval hook) and on "
              "each public evaluation entry point, under a class-enumerating seeded workload")
@@ -206,6 +206,29 @@ def check(case, ctx):
                 ok = all(abs(x - y) <= 1e-12 * sc for x, y in zip(got, ref_pt))
             ctx.check(ok, 'grid/corner', '%s grid point %r is not the evaluation at the domain corner %r' % (nm, list(got), list(ref_pt)),
                       what='corner')
+    # -- the same shape sampled through a container: "sample size defines the number of points to evaluate" (per direction, per shape) -------
+    if case['seed'] % 3 == 0:
+        import copy as _copy
+        from geomdl import multi
+        ccls = {1: multi.CurveContainer, 2: multi.SurfaceContainer, 3: multi.VolumeContainer}[pdim]
+        members = [_copy.deepcopy(o) for _ in range(rng.randint(1, 2))]
+        cont = ccls(*members)
+        n_ = rng.randint(2, {1: 12, 2: 6, 3: 4}[pdim])
+        cont.sample_size = n_
+        ctx.tag('container-grid')
+        got_ss = cont.sample_size
+        ctx.check(got_ss == (n_ if pdim == 1 else [n_] * pdim), 'container-grid/sample_size-roundtrip', 'container.sample_size set to %d reads back %r'
+                  % (n_, got_ss), what='grid_shape')
+        cpts = cont.evalpts
+        ctx.check(len(cpts) == len(members) * n_ ** pdim, 'container-grid/size', 'container.sample_size = %d over %d %s(s): evalpts has %d points, '
+                  'documented %d x %d^%d = %d' % (n_, len(members), ccls.__name__[:-9].lower(), len(cpts), len(members), n_, pdim,
+                                                   len(members) * n_ ** pdim), what='grid_shape')
+        if len(cpts) == len(members) * n_ ** pdim:
+            first, last = cpts[0], cpts[n_ ** pdim - 1]
+            c0 = G.evaluate_single(o, [a for a, b in doms])
+            c1 = G.evaluate_single(o, [b for a, b in doms])
+            ctx.check(all(abs(x - y) <= 1e-12 * sc for x, y in zip(first, c0)) and all(abs(x - y) <= 1e-12 * sc for x, y in zip(last, c1)),
+                      'container-grid/corner', "the container's samples of its first shape do not start / end on the domain corners", what='corner')
     # -- evaluate(start, stop) on a sub-range ---------------------------------------------------------------------
     sub = []
     for a, b in doms:
